@@ -227,8 +227,8 @@ def _sh_uid_alignment(cx, g, field):
     own = ("attr", S, "uid")
 
     def is_fmt(x):
-        return (x[0] == "binop" and x[1] == "%" and x[2] == ("const", "%s-%s") and x[3][0] == "tuple" and len(x[3][1]) == 2
-                and T.attr_chain(x[3][1][0]) == "%s.parent.uid" % cx.selfname and T.attr_chain(x[3][1][1]) == "%s.id" % cx.selfname)
+        return (x[0] == "fmt" and len(x[1]) == 3 and x[1][1] == ("const", "-")
+                and T.attr_chain(x[1][0]) == "%s.parent.uid" % cx.selfname and T.attr_chain(x[1][2]) == "%s.id" % cx.selfname)
     sides = [list(s_[1]) if s_[0] == "phi" else [s_] for s_ in t[2]]
     fside = [s_ for s_ in sides if any(is_fmt(a) for a in s_)]
     oside = [s_ for s_ in sides if not any(is_fmt(a) for a in s_)]
@@ -400,14 +400,15 @@ def r_label_lang(model, rep):
     f = model.function("composeinfo", "verify_label")
     cx = facts.fctx(model, f)
     lab = ("param", cx.params[0])
-    m = [ev for ev in cx.events if ev.kind == "call" and ev.value[1][0] == "attr" and ev.value[1][2] == "match" and ev.value[2] == (lab,)
-         and ev.loops and ev.loops[-1][1] == ("global", "LABEL_RE_LIST")]
-    r = [ev for ev in cx.events if ev.kind == "raise" and ev.value[0] == "call" and ev.value[1] == ("global", "ValueError")]
-    ok = len(m) == 1 and len(r) == 1 and not m[0].guards[1:] and not r[0].loops
+    ss = [x for x in facts.searches(cx) if x.coll == ("global", "LABEL_RE_LIST")]
+    r = [ev for ev in cx.events if ev.kind == "raise"]
+    ok = len(ss) == 1 and len(r) == 1 and r[0].value[0] == "call" and r[0].value[1] == ("global", "ValueError")
     if ok:
+        x = ss[0]
+        ok = x.test in (("call", ("attr", x.elem, "match"), (lab,), ()), ("call", ("global", "re.match"), (x.elem, lab), ()))
         # the raise is conditioned on "no pattern matched" only (besides label is None -> return)
-        pos = [g for g in r[0].guards if g[1]]
-        ok = len(pos) == 1 and pos[0][0][0] == "unary" and pos[0][0][1] == "not"
+        others = [g for g in facts.own_guards(cx, r[0])[:-1 if x.form in ("flag", "any") else None]]
+        ok = ok and not [g for g in others if facts.canon_guard(g) != facts.canon_guard((("cmp", ("is",), (lab, ("const", None))), False))]
     rep.ob("R-LABEL-LANG", "verify_label", ok, site=cx.site(f.node),
            msg="" if ok else "verify_label must try label against every pattern of LABEL_RE_LIST with .match and raise ValueError when none matches")
 
@@ -438,33 +439,42 @@ def r_assert_helpers(model, rep):
     f = model.own_method("common.MetadataBase", "_assert_type")
     cx = facts.fctx(model, f)
     val = ("call", ("global", "getattr"), (S(cx), ("param", cx.params[1])), ())
+    types_p = ("param", cx.params[2])
     r = [ev for ev in cx.events if ev.kind == "raise"]
-    rets = [ev for ev in cx.events if ev.kind == "return"]
-    ok = len(r) == 1 and r[0].value[0] == "call" and r[0].value[1] == ("global", "TypeError") and not r[0].loops and not [g for g in r[0].guards if g[1]]
+    ok = len(r) == 1 and r[0].value[0] == "call" and r[0].value[1] == ("global", "TypeError")
     okr = False
-    if len(rets) == 1 and rets[0].loops and rets[0].loops[-1][1] == ("param", cx.params[2]):
-        el = ("elem", rets[0].loops[-1][1], rets[0].loops[-1][0])
-        okr = list(rets[0].guards) == [(("call", ("global", "isinstance"), (val, el), ()), True)]
-    else:
+    ss = [x for x in facts.searches(cx) if x.coll == types_p]
+    if ok and len(ss) == 1 and ss[0].raise_ev is r[0]:
+        x = ss[0]
+        okr = x.test == ("call", ("global", "isinstance"), (val, x.elem), ()) and len(facts.own_guards(cx, r[0])) == (
+            1 if x.form in ("flag", "any") else 0)
+    elif ok:
         # isinstance(value, tuple(expected_types)) form
-        g = [gd for gd in (r[0].guards if r else [])]
-        okr = any(T.contains(gd[0], lambda x: x[0] == "call" and x[1] == ("global", "isinstance") and x[2][0] == val) for gd in g)
-        ok = len(r) == 1 and r[0].value[0] == "call" and r[0].value[1] == ("global", "TypeError")
+        og = facts.own_guards(cx, r[0])
+        okr = len(og) == 1 and facts.canon_guard(og[0]) in (
+            facts.canon_guard((("call", ("global", "isinstance"), (val, ("call", ("global", "tuple"), (types_p,), ())), ()), False)),)
     rep.ob("R-ASSERT-HELPERS", "MetadataBase._assert_type", ok and okr, site=cx.site(f.node),
            msg="" if ok and okr else "_assert_type must raise TypeError unless the field value is an instance of one of the expected types")
     # _assert_matches_re: return iff some pattern matches (pattern.match / re.match); else ValueError
     f = model.own_method("common.MetadataBase", "_assert_matches_re")
     cx = facts.fctx(model, f)
     val = ("call", ("global", "getattr"), (S(cx), ("param", cx.params[1])), ())
-    r = [ev for ev in cx.events if ev.kind == "raise" and not ev.loops]
-    rets = [ev for ev in cx.events if ev.kind == "return" and ev.loops]
-    ok = len(r) == 1 and r[0].value[0] == "call" and r[0].value[1] == ("global", "ValueError") and not [g for g in r[0].guards if g[1]]
-    okm = bool(rets)
-    for rt in rets:
-        el = ("elem", rt.loops[-1][1], rt.loops[-1][0])
-        conds = [g for g in rt.guards if g[0][0] != "exc"]
-        okm = okm and rt.loops[-1][1] == ("param", cx.params[2]) and len(conds) == 1 and conds[0][1] and conds[0][0] in (
-            ("call", ("attr", el, "match"), (val,), ()), ("call", ("global", "re.match"), (el, val), ()))
+    pats_p = ("param", cx.params[2])
+    r = [ev for ev in cx.events if ev.kind == "raise"]
+    ok = len(r) == 1 and r[0].value[0] == "call" and r[0].value[1] == ("global", "ValueError")
+    okm = False
+    ss = [x for x in facts.searches(cx) if x.coll == pats_p]
+    if ok and len(ss) == 1 and ss[0].raise_ev is r[0]:
+        x = ss[0]
+        m_c = ("call", ("attr", x.elem, "match"), (val,), ())          # compiled pattern
+        m_s = ("call", ("global", "re.match"), (x.elem, val), ())      # pattern given as a string (no .match attribute)
+        exc = ("exc", "AttributeError")
+        # a compiled pattern: no AttributeError, found iff pattern.match(value); a string: pattern.match raises
+        # AttributeError, found iff re.match(pattern, value)
+        as_compiled = facts.bool_reduce(x.test, {exc: False})
+        as_string = facts.bool_reduce(x.test, {exc: True, m_c: False})
+        okm = as_compiled == m_c and as_string == m_s or x.test == m_s
+        okm = okm and len(facts.own_guards(cx, r[0])) == (1 if x.form in ("flag", "any") else 0)
     rep.ob("R-ASSERT-HELPERS", "MetadataBase._assert_matches_re", ok and okm, site=cx.site(f.node),
            msg="" if ok and okm else "_assert_matches_re must return exactly when some pattern .match()es the field value and raise ValueError otherwise")
     for cls in facts.metadata_classes(model):
